@@ -3,6 +3,7 @@
 import sys, os, shutil, json, subprocess
 cid, slug, rnd, change, needs = sys.argv[1:6]
 NOTES={4:"round 4: the author was asked for feature interactions and less-travelled entry points (re-used instances, flows with retry settings, unusual but legal values, state surviving between runs)",
+ 9:"round 9: as rounds 6-8 (free choice, eight earlier ideas per property excluded)",
  8:"round 8: as rounds 6 and 7 (free choice, seven earlier ideas per property excluded)",
  7:"round 7: as round 6 (free choice, six earlier ideas per property excluded)",
  6:"round 6: the author was told that everything on the used-list had been caught in the end and asked for whatever could still slip through (least-attended clauses and entry points, call order, n-th call, aliasing, leftovers)",
